@@ -14,7 +14,14 @@ func init() {
 	Register(&PropDef{ID: "C01", Run: seqOrLin(seqC01, linPubSub), Config: seqOrLinConfig})
 	Register(&PropDef{ID: "C03", Run: seqOrLin(seqC03, linRPC), Config: seqOrLinConfig})
 	Register(&PropDef{ID: "C12", Run: func(c *Ctx) { runSeq(c, seqC12) }, Config: seqConfig})
-	Register(&PropDef{ID: "C05", Run: func(c *Ctx) { runSeq(c, seqC05) }, Config: seqConfig})
+	Register(&PropDef{ID: "C05", Run: func(c *Ctx) {
+		if isLinRun(c.Spec.GenSeed) {
+			runC05b(c) // concurrent workload, late joiners, kills; baseline at the end
+			return
+		}
+		runSeq(c, seqC05)
+	}, Config: seqOrLinConfig})
+	Register(&PropDef{ID: "C05b", Run: runC05b})
 	Register(&PropDef{ID: "C18", Run: seqOrLin(seqC18, linMeta), Config: seqOrLinConfig})
 	Register(&PropDef{ID: "LIN", Run: func(c *Ctx) { runLin(c, linFlavour(c.Gen.Intn(3))) }})
 	Register(&PropDef{ID: "C10", Run: func(c *Ctx) { runSeq(c, seqC10) }, Config: seqConfig})
